@@ -13,7 +13,7 @@ carries a key twice (`WF`, proved in Props/C10).
 
 Nondeterminism, made explicit:
 * `time.Now()` / `time.Since` are the argument `now : Nat` (nanoseconds on the
-  monotonic clock).  `Add` reads the clock once per stored result; a call
+  monotonic clock).  `Add` reads the clock for the expiry test and once per stored result; a call
   `Add(r₁ … rₙ)` is by definition (`add`) the sequence of single-result adds,
   so a call whose clock readings differ is the same as `n` consecutive
   single-result events with their own `now` — the theorems range over
@@ -57,20 +57,33 @@ subtraction; on the monotonic clock `now ≥ addedAt`, and for a (never observed
 negative duration both Go and the model answer "not expired". -/
 def expired (ttl now : Nat) (e : Entry) : Bool := decide (now - e.addedAt > ttl)
 
-/-- one iteration of the loop in `Add`:
+/-- one iteration of the loop in `Add` (after `fix: result store: an expired, not yet collected
+entry no longer blocks a new result`, efb208c):
 ```
 v, ok := s.data[r.WorkID]
-if !ok { s.data[r.WorkID] = result{r, now} }
+if !ok || time.Since(v.addedAt) > storeTTL { s.data[r.WorkID] = result{r, now} }
 else if v.data.Trigger.BlockNumber < r.Trigger.BlockNumber { s.data[r.WorkID] = result{r, now} }
 ```
-The stored entry is consulted whether or not it is past its TTL. -/
-def add1 (now : Nat) (s : Store) (r : CheckResult) : Store :=
+An entry past its TTL is treated like a missing one. -/
+def add1 (ttl now : Nat) (s : Store) (r : CheckResult) : Store :=
+  match get s r.workID with
+  | none => set s r.workID ⟨r, now⟩
+  | some v =>
+    if expired ttl now v then set s r.workID ⟨r, now⟩
+    else if blk v.data < blk r then set s r.workID ⟨r, now⟩
+    else s
+
+/-- `Add(results...)` -/
+def add (ttl now : Nat) (s : Store) (rs : List CheckResult) : Store := rs.foldl (add1 ttl now) s
+
+/-- the loop body of `Add` in the pinned tree (before efb208c): the stored entry is consulted
+whether or not it is past its TTL.  Kept for the witness theorems in Props/C10. -/
+def add1Old (now : Nat) (s : Store) (r : CheckResult) : Store :=
   match get s r.workID with
   | none => set s r.workID ⟨r, now⟩
   | some v => if blk v.data < blk r then set s r.workID ⟨r, now⟩ else s
 
-/-- `Add(results...)` -/
-def add (now : Nat) (s : Store) (rs : List CheckResult) : Store := rs.foldl (add1 now) s
+def addOld (now : Nat) (s : Store) (rs : List CheckResult) : Store := rs.foldl (add1Old now) s
 
 /-- `remove(id)`: `if _, ok := s.data[id]; !ok { return }; delete(s.data, id)` -/
 def remove1 (s : Store) (id : String) : Store :=
@@ -100,8 +113,8 @@ def gcOrd (ttl now : Nat) (s : Store) (ord : List String) : Store :=
 
 /-- `eligiblePostProcessor.PostProcess`: `if res.PipelineExecutionState == 0 && res.Eligible { Add(res) }`,
 one `Add` call per result, in order -/
-def postProcess (now : Nat) (s : Store) (rs : List CheckResult) : Store :=
-  add now s (rs.filter (fun r => decide (r.pes = 0) && r.eligible))
+def postProcess (ttl now : Nat) (s : Store) (rs : List CheckResult) : Store :=
+  add ttl now s (rs.filter (fun r => decide (r.pes = 0) && r.eligible))
 
 /-- `RemoveFromStagingHook.RunHook`: `Remove(workIDs of outcome.AgreedPerformables...)` -/
 def runHook (s : Store) (agreed : List CheckResult) : Store := remove s (agreed.map (·.workID))
@@ -124,12 +137,19 @@ def Ev.now : Ev → Nat
 
 /-- state change of one event (a view changes nothing) -/
 def step (ttl : Nat) (s : Store) : Ev → Store
-  | .add t r => add1 t s r
+  | .add t r => add1 ttl t s r
   | .remove _ id => remove1 s id
   | .gc t => gc ttl t s
   | .view _ _ => s
 
 def run (ttl : Nat) (s : Store) (evs : List Ev) : Store := evs.foldl (step ttl) s
+
+/-- the pinned tree's step / run (witness theorems only) -/
+def stepOld (ttl : Nat) (s : Store) : Ev → Store
+  | .add t r => add1Old t s r
+  | e => step ttl s e
+
+def runOld (ttl : Nat) (s : Store) (evs : List Ev) : Store := evs.foldl (stepOld ttl) s
 
 /-- every recorded view is one the model allows at that point of the history -/
 def Conforms (ttl : Nat) : Store → List Ev → Prop
@@ -146,6 +166,16 @@ def conformsB (ttl : Nat) : Store → List Ev → Bool
     (match e with
      | .view t out => out.isPerm (view ttl t s)
      | _ => true) && conformsB ttl (step ttl s e) rest
+
+def conformsBOld (ttl : Nat) : Store → List Ev → Bool
+  | _, [] => true
+  | s, e :: rest =>
+    (match e with
+     | .view t out => out.isPerm (view ttl t s)
+     | _ => true) && conformsBOld ttl (stepOld ttl s e) rest
+
+/-- the history without its collector events -/
+def stripGc (evs : List Ev) : List Ev := evs.filter (fun e => match e with | .gc _ => false | _ => true)
 
 /-- the history with every view replaced by the model's own (list order) -/
 def modelTrace (ttl : Nat) : Store → List Ev → List Ev
